@@ -252,7 +252,7 @@ def client_case(R, rec, ctx, rng, world):
 # --------------------------------------------------------------------------------------------------
 # limits grid
 
-POSITIONS = ["request-line", "field", "chunk-size", "chunk-ext", "trailer", "count", "trailer-count", "status-line", "resp-field"]
+POSITIONS = ["request-line", "field", "chunk-size", "chunk-ext", "trailer", "count", "trailer-count", "status-line", "resp-field", "resp-folded2", "resp-folded5"]
 CONFIGS = [(40, 40, 12), (30, 60, 12), (60, 30, 12), (8190, 8190, 128), (100, 8190, 20), (8190, 100, 20)]
 SEGC = ["whole", "mid-line", "line-end", "before-lf", "byte"]
 
@@ -264,6 +264,21 @@ def limit_stream(pos, ml, mf, mh, delta):
 
     tail = b"GET /next HTTP/1.1\r\nHost: n\r\n\r\n"
     expect = "accept" if delta <= 0 else "reject"
+    if pos in ("resp-folded2", "resp-folded5"):
+        # lax (response) mode accepts obs-fold: the limit applies to the whole folded field, every line is short
+        k = 2 if pos == "resp-folded2" else 5
+        total = mf + delta
+        first = b"X-F: " + b"a" * 3
+        rest = max(total - len(first) + len(b"X-F: "), k)  # continuation bytes to distribute (value length counts)
+        per = rest // k
+        lines = [b" " + b"b" * max(per - 1, 0) for _ in range(k)]
+        lines[-1] = b" " + b"b" * max(rest - per * (k - 1) - 1, 0)
+        head = b"HTTP/1.1 200 OK\r\n" + first + b"\r\n" + b"\r\n".join(lines) + b"\r\nContent-Length: 0\r\n\r\n"
+        # aiohttp counts len(first value) + len(each continuation line); expect accept well below, reject well above
+        expect = "accept" if delta <= -8 else ("reject" if delta >= 8 else "either")
+        if max(len(x) for x in lines + [first]) > mf:
+            expect = "either"
+        return "response", head, len(b"HTTP/1.1 200 OK\r\n"), len(first), expect
     if pos in ("status-line", "resp-field"):
         if pos == "status-line":
             line = pad(b"HTTP/1.1 200 ", ml + delta)
@@ -331,7 +346,7 @@ def seg_cuts(segc, off, ln, n):
 def limits_grid(spec, rec):
     from vlib.parserun import ParserRun
 
-    cells = [(p, c, d, s) for p in POSITIONS for c in CONFIGS for d in (-2, -1, 0, 1, 2, 40) for s in SEGC]
+    cells = [(p, c, d, s) for p in POSITIONS for c in CONFIGS for d in (-2, -1, 0, 1, 2, 40, -40) for s in SEGC]
     mine = [x for i, x in enumerate(cells) if i % spec["parts"] == spec["sub"]]
     for pos, lim, delta, segc in mine:
         ml, mf, mh = lim
@@ -355,6 +370,8 @@ def limits_grid(spec, rec):
             rec.violation(f"limit:rejected-at-or-below:{pos}", f"{pos} limits={lim} delta={delta:+d} seg={segc}: {run.error}", w)
         elif expect == "reject" and got == "accept":
             rec.violation(f"limit:accepted-above:{pos}", f"{pos} limits={lim} delta={delta:+d} seg={segc}: accepted, {len(run.msgs)} messages", w)
+        elif expect == "either":
+            pass
         elif expect == "reject" and pos not in ("count", "trailer-count") and run.error[0] != "LineTooLong":
             rec.violation(f"limit:wrong-error:{pos}:{run.error[0]}", f"{pos} limits={lim} delta={delta:+d} seg={segc}: {run.error}", w)
         if expect == "accept" and got == "accept":
@@ -373,18 +390,19 @@ def limits_grid(spec, rec):
                 "chunk-size": b"POST / HTTP/1.1\r\nHost: h\r\nTransfer-Encoding: chunked\r\n\r\n",
                 "trailer": b"POST / HTTP/1.1\r\nHost: h\r\nTransfer-Encoding: chunked\r\n\r\n0\r\n",
             }[pos]
-            for step in (1, 7, 500):
+            for step, cr_end in ((1, False), (7, False), (500, False), (7, True), (50, True), (2, True)):
                 run = ParserRun("request", max_line_size=ml, max_field_size=mf, max_headers=mh)
                 run.feed(pre)
                 fed = 0
                 filler = b"5" if pos == "chunk-size" else b"a"
                 while run.error is None and fed < 4000:
-                    run.feed(filler * step)
+                    # cr_end: every read ends with a CR (which may be half of a CRLF) and the line never ends
+                    run.feed(filler * (step - 1) + b"\r" if cr_end else filler * step)
                     fed += step
-                rec.case(("endless-line", pos, lim, step), nontrivial=True)
+                rec.case(("endless-line", pos, lim, step, cr_end), nontrivial=True)
                 limit_here = ml if pos in ("request-line", "chunk-size") else mf
                 rec.count(f"endless-line:{pos}:" + ("rejected" if run.error else "never-rejected"))
-                w = {"position": pos, "limits": lim, "step": step, "kind": "request", "endless": True}
+                w = {"position": pos, "limits": lim, "step": step, "cr_end": cr_end, "kind": "request", "endless": True}
                 if run.error is None:
                     rec.violation(f"limit:endless-line-never-rejected:{pos}", f"{pos} {lim} step={step}: {fed} bytes without CRLF accepted", w)
                 # what is retained between calls may exceed the limit by at most one read
@@ -579,6 +597,12 @@ def run_shard(spec, rec):
             if i % 301 == 0:
                 rec.sample({"kind": "request-target", "method": m, "target": t.encode("utf-8", "surrogateescape")[:100].decode("latin1")})
     elif kind == "server":
+        L, C, N = G.rich_bases(rng)
+        muts = G.mutation_classes(rng, L, C, N)
+        for j, (cls, pos, r) in enumerate(muts):
+            if cls.startswith("ctl-") or "chunk" in cls or cls.startswith(("cl-", "te-", "eol-")):
+                if j % 3 == spec["seed"] % 3:
+                    server_case(r.render() + G.canary(1), rec, f"class:{cls}", rng)
         i = 0
         while i < spec["n"]:
             base = b"".join(G.gen_valid(rng, rich=rng.random() < 0.3).render() for _ in range(rng.choice([1, 2, 3])))
